@@ -601,6 +601,33 @@ func Run(cfg hx.Config) error {
 			sc.faulty(scn, []ctrl.Script{faulty}, false)
 		}
 	}
+	// An ecosystem's scanner constructor failing while coalesce runs (repaired
+	// defect: the error was ignored and a report without that kind of artifact
+	// was returned as a success). Constructors are not numbered calls, so these
+	// runs are direct checks only.
+	qs := ctrl.NewSession(r)
+	qs.Quiet = true
+	qc := &checker{r: r, s: qs}
+	for i, n := 0, cfg.N(40, 400); i < n && !r.Stop() && !qs.Lost; i++ {
+		sc := scenario{Cfg: GenConfig(rnd, rnd.U64()), M: GenManifest(rnd, 3)}
+		if i == 0 {
+			sc = scenario{Cfg: ctrl.Config{{Eco: 0, Kind: 'p', Name: "a", Version: "1"}, {Eco: 0, Kind: 'd', Name: "b", Version: "1"}}, M: []int{1, 2}}
+		}
+		k := 1 + rnd.Intn(7)
+		if i == 0 {
+			k = 1
+		}
+		qc.setup(sc)
+		qs.W.CtorFailInIndex = k
+		res := qc.attempt(sc, ctrl.Script{}, false)
+		qs.W.CtorFailInIndex = 0
+		if res.Failed {
+			r.Count("ctor-failure-in-coalesce.reached")
+		} else {
+			r.Count("ctor-failure-in-coalesce.not-reached")
+		}
+		qc.retry(sc, fmt.Sprintf("constructor call %d of coalesce fails", k), false, false)
+	}
 	// Interleavings: the same direct checks with four scanner goroutines
 	// (LayerScanConcurrency = 4). Call numbering then depends on the schedule,
 	// so these runs are not part of the line protocol; the statement is about
